@@ -25,6 +25,7 @@ def run(ctx):
         import shutil, subprocess
         if shutil.which("apalache-mc"):
             d = ctx.spec_dir("apalache")
+            shutil.copy(os.path.join(vlib.SPEC, "apalache", "APA_History.tla"), d)
             ok = []
             for args in (["--init=Init", "--inv=IndInv", "--length=0"], ["--init=IndInit", "--inv=IndInv", "--length=1"]):
                 try:
